@@ -4,7 +4,10 @@ import NucsProofs.Propagators.CountEq
 import NucsProofs.Propagators.Counting
 import NucsProofs.Propagators.Dummy
 import NucsProofs.Propagators.Element
+import NucsProofs.Propagators.Lex
 import NucsProofs.Propagators.MinMax
+import NucsProofs.Propagators.NoSubCycle
+import NucsProofs.Propagators.Scc
 
 import NucsProofs.Engine.BcLoop
 
@@ -24,13 +27,18 @@ theorem C08_trig_elementLiv : TrigOk .elementLiv := trigOk_elementLiv
 theorem C08_trig_elementLic : TrigOk .elementLic := trigOk_elementLic
 theorem C08_trig_exactlyEq : TrigOk .exactlyEq := trigOk_exactlyEq
 theorem C08_trig_exactlyTrue : TrigOk .exactlyTrue := trigOk_exactlyTrue
+theorem C08_trig_lexLeq : TrigOk .lexLeq := trigOk_lexLeq
 theorem C08_trig_maxEq : TrigOk .maxEq := trigOk_maxEq
 theorem C08_trig_maxLeq : TrigOk .maxLeq := trigOk_maxLeq
 theorem C08_trig_minEq : TrigOk .minEq := trigOk_minEq
 theorem C08_trig_minGeq : TrigOk .minGeq := trigOk_minGeq
+theorem C08_trig_noSubCycle_partial : TrigOkP .noSubCycle := trigOkP_noSubCycle
+/-- the full statement is FALSE for the code (known finding K3) -/
+theorem C08_trig_noSubCycle_full_is_false : ¬ TrigOkW .noSubCycle := not_trigOkW_noSubCycle
 theorem C08_trig_relation : TrigOk .relation := trigOk_relation
+theorem C08_trig_scc : TrigOk .scc := trigOk_scc
 
-def C08_trig_unproved : List Alg := [.alldifferent, .dummy, .gcc, .lexLeq, .noSubCycle, .scc]
+def C08_trig_unproved : List Alg := [.alldifferent, .dummy, .gcc]
 
 theorem localOk_and : LocalOk .and := ⟨sound_and, groundOk_and, entailOk_and, TrigG_of_TrigOk (by decide) trigOk_and, contractMono_and⟩
 theorem localOk_affineEq : LocalOk .affineEq := ⟨sound_affineEq, groundOk_affineEq, entailOk_affineEq, TrigG_of_TrigOk (by decide) trigOk_affineEq, contractMono_affineEq⟩
@@ -42,18 +50,21 @@ theorem localOk_elementLiv : LocalOk .elementLiv := ⟨sound_elementLiv, groundO
 theorem localOk_elementLic : LocalOk .elementLic := ⟨sound_elementLic, groundOk_elementLic, entailOk_elementLic, TrigG_of_TrigOk (by decide) trigOk_elementLic, contractMono_elementLic⟩
 theorem localOk_exactlyEq : LocalOk .exactlyEq := ⟨sound_exactlyEq, groundOk_exactlyEq, entailOk_exactlyEq, TrigG_of_TrigOk (by decide) trigOk_exactlyEq, contractMono_exactlyEq⟩
 theorem localOk_exactlyTrue : LocalOk .exactlyTrue := ⟨sound_exactlyTrue, groundOk_exactlyTrue, entailOk_exactlyTrue, TrigG_of_TrigOk (by decide) trigOk_exactlyTrue, contractMono_exactlyTrue⟩
+theorem localOk_lexLeq : LocalOk .lexLeq := ⟨sound_lexLeq, groundOk_lexLeq, entailOk_lexLeq, TrigG_of_TrigOk (by decide) trigOk_lexLeq, contractMono_lexLeq⟩
 theorem localOk_maxEq : LocalOk .maxEq := ⟨sound_maxEq, groundOk_maxEq, entailOk_maxEq, TrigG_of_TrigOk (by decide) trigOk_maxEq, contractMono_maxEq⟩
 theorem localOk_maxLeq : LocalOk .maxLeq := ⟨sound_maxLeq, groundOk_maxLeq, entailOk_maxLeq, TrigG_of_TrigOk (by decide) trigOk_maxLeq, contractMono_maxLeq⟩
 theorem localOk_minEq : LocalOk .minEq := ⟨sound_minEq, groundOk_minEq, entailOk_minEq, TrigG_of_TrigOk (by decide) trigOk_minEq, contractMono_minEq⟩
 theorem localOk_minGeq : LocalOk .minGeq := ⟨sound_minGeq, groundOk_minGeq, entailOk_minGeq, TrigG_of_TrigOk (by decide) trigOk_minGeq, contractMono_minGeq⟩
+theorem localOk_noSubCycle : LocalOk .noSubCycle := ⟨sound_noSubCycle, groundOk_noSubCycle, entailOk_noSubCycle, TrigG_of_TrigOkP trigOkP_noSubCycle, contractMono_noSubCycle⟩
 theorem localOk_relation : LocalOk .relation := ⟨sound_relation, groundOk_relation, entailOk_relation, TrigG_of_TrigOk (by decide) trigOk_relation, contractMono_relation⟩
+theorem localOk_scc : LocalOk .scc := ⟨sound_scc, groundOk_scc, entailOk_scc, TrigG_of_TrigOk (by decide) trigOk_scc, contractMono_scc⟩
 
 /-- the algorithms whose five local contracts are all proved -/
-def provenAlgs : List Alg := [.and, .affineEq, .affineGeq, .affineLeq, .countEq, .elementIv, .elementLiv, .elementLic, .exactlyEq, .exactlyTrue, .maxEq, .maxLeq, .minEq, .minGeq, .relation]
+def provenAlgs : List Alg := [.and, .affineEq, .affineGeq, .affineLeq, .countEq, .elementIv, .elementLiv, .elementLic, .exactlyEq, .exactlyTrue, .lexLeq, .maxEq, .maxLeq, .minEq, .minGeq, .noSubCycle, .relation, .scc]
 
 theorem localOk_of_proven (a : Alg) (h : a ∈ provenAlgs) : LocalOk a := by
   simp only [provenAlgs, List.mem_cons, List.mem_nil_iff, or_false] at h
-  rcases h with rfl | rfl | rfl | rfl | rfl | rfl | rfl | rfl | rfl | rfl | rfl | rfl | rfl | rfl | rfl
+  rcases h with rfl | rfl | rfl | rfl | rfl | rfl | rfl | rfl | rfl | rfl | rfl | rfl | rfl | rfl | rfl | rfl | rfl | rfl
   · exact localOk_and
   · exact localOk_affineEq
   · exact localOk_affineGeq
@@ -64,10 +75,13 @@ theorem localOk_of_proven (a : Alg) (h : a ∈ provenAlgs) : LocalOk a := by
   · exact localOk_elementLic
   · exact localOk_exactlyEq
   · exact localOk_exactlyTrue
+  · exact localOk_lexLeq
   · exact localOk_maxEq
   · exact localOk_maxLeq
   · exact localOk_minEq
   · exact localOk_minGeq
+  · exact localOk_noSubCycle
   · exact localOk_relation
+  · exact localOk_scc
 
 end Nucs
